@@ -753,6 +753,8 @@ pub fn check(prog: &Program, ex: &Execution, cfg: &OracleCfg) -> OracleOut {
     check_attachments(prog, ex, cfg, &exps, &pairs.iter().map(|(r, e)| (recs[*r].r, recs[*r].name.clone(), *e)).collect::<Vec<_>>(), &commit_time, &start_lost, &dropped, &consumed_map, &mut out, &mut cn);
 
     // ---- contexts ----
+    let mut ctx_ids: HashMap<String, u64> = HashMap::new();
+    let mut ctx_owner: HashMap<u64, String> = HashMap::new();
     for (flat, info) in m.ops.iter().enumerate() {
         if let Some(exp) = &info.ctx {
             let got = match ex.results.get(flat).map(|r| &r.kind) {
@@ -774,6 +776,25 @@ pub fn check(prog: &Program, ex: &Execution, cfg: &OracleCfg) -> OracleOut {
                     if let Some(want) = resolve(pref) {
                         if sid != want {
                             v(&mut out, Cat::CtxMismatch, "ctx-span-id", format!("flat op {}: span id {:x}, expected {:x} ({:?})", flat, sid, want, pref));
+                        }
+                    } else if !matches!(pref, PRef::Remote(_)) {
+                        // no delivered record tells which id the span has (unsampled trace, record
+                        // not out yet): the id is still a real one, the same every time, and not
+                        // the id of any other span
+                        let key = format!("{:?}", pref);
+                        if sid == 0 {
+                            v(&mut out, Cat::CtxMismatch, "ctx-span-id-zero", format!("flat op {}: the context of {:?} carries span id 0", flat, pref));
+                        } else {
+                            match ctx_ids.get(&key) {
+                                Some(prev) if *prev != sid => v(&mut out, Cat::CtxMismatch, "ctx-span-id-unstable", format!("flat op {}: the context of {:?} carries span id {:x}, earlier {:x}", flat, pref, sid, prev)),
+                                _ => {}
+                            }
+                            match ctx_owner.get(&sid) {
+                                Some(other) if *other != key => v(&mut out, Cat::CtxMismatch, "ctx-span-id-shared", format!("flat op {}: the contexts of {:?} and {} carry the same span id {:x}", flat, pref, other, sid)),
+                                _ => {}
+                            }
+                            ctx_ids.insert(key.clone(), sid);
+                            ctx_owner.insert(sid, key);
                         }
                     }
                 }
